@@ -105,7 +105,7 @@ func writeEvidence(id, tier string, seed int, results []*JobResult, confirmed []
 		"violations": len(confirmed),
 	}
 	b, _ := json.MarshalIndent(ev, "", " ")
-	dir := filepath.Join(verifDir, "evidence")
+	dir := envOr("VERIF_EVIDENCE_DIR", filepath.Join(verifDir, "evidence"))
 	os.MkdirAll(dir, 0o755)
 	if err := os.WriteFile(filepath.Join(dir, id+".json"), b, 0o644); err != nil {
 		fmt.Fprintln(os.Stderr, "evidence:", err)
